@@ -115,6 +115,19 @@ fn positions_of(c: &Construct) -> Vec<Position> {
 }
 
 /// the victim item(s) carrying the construct
+/// `flatten` rarely comes alone: other serde arguments in the same or in separate attributes, before or after it
+fn flatten_company(f: &mut Field, c: &Case) {
+    let k = c.base.len() + c.lang as usize + c.chain.len() + c.victim_first as usize * 2 + c.preexisting as usize * 4 + c.folder as usize * 8;
+    if k % 3 != 0 {
+        f.default = Dflt::Bare;
+    }
+    if k % 4 == 1 {
+        f.decoys.push(Decoy::Alias);
+    }
+    // layout: bit 0 = one attribute per argument, bit 2 = reversed order
+    f.layout = (k % 8) as u8;
+}
+
 pub fn victims(c: &Case) -> Vec<Item> {
     let plain = |n: &str| Field::new(n, Ty::Prim(Prim::String));
     let bad = bad_ty(&c.construct).map(|t| wrap(t, &c.chain));
@@ -125,6 +138,7 @@ pub fn victims(c: &Case) -> Vec<Item> {
             if c.construct == Construct::Flatten {
                 f.flatten = true;
                 f.ty = Ty::user("Companion");
+                flatten_company(&mut f, c);
             }
             f.skip = c.skip;
             out.push(Item::new("Victim", Kind::Struct { shape: Shape::Named(vec![plain("before"), f, plain("after")]), rename_all: None }));
@@ -134,6 +148,7 @@ pub fn victims(c: &Case) -> Vec<Item> {
             if c.construct == Construct::Flatten {
                 f.flatten = true;
                 f.ty = Ty::user("Companion");
+                flatten_company(&mut f, c);
             }
             let mut v = Variant::unit("Holder");
             if c.skip_variant {
@@ -429,7 +444,16 @@ impl SubCheck for C08Cli {
         // the victim lives in its own file next to a healthy one
         let items = case_items(c);
         let healthy = items_src(&[companion()]);
-        cli::write_tree(&tree, &[("the-crate/src/healthy.rs".into(), healthy.into_bytes()), ("the-crate/src/victim_file.rs".into(), items_src(&items[1..]).into_bytes())]);
+        // ... and next to two healthy crates, one sorting before and one after the victim's (folder mode writes one file per crate)
+        cli::write_tree(
+            &tree,
+            &[
+                ("the-crate/src/healthy.rs".into(), healthy.into_bytes()),
+                ("the-crate/src/victim_file.rs".into(), items_src(&items[1..]).into_bytes()),
+                ("aaa-clean/src/lib.rs".into(), b"#[typeshare]\npub struct CleanFirst { pub f: u8 }\n".to_vec()),
+                ("zzz-clean/src/lib.rs".into(), b"#[typeshare]\npub struct CleanLast { pub f: u8 }\n".to_vec()),
+            ],
+        );
         let outdir = root.join("out");
         std::fs::create_dir_all(&outdir).unwrap();
         let out_path = if c.folder { outdir.clone() } else { outdir.join(format!("out.{}", lang.ext())) };
